@@ -725,6 +725,12 @@ func (e *gEngine) analyse(f *ssa.Function, args []lat, depth int) *fnAnalysis {
 				l := latTop
 				if get(x.X).k == kBigSlice && x.High == nil && x.Max == nil {
 					l = latBigSlice
+					// a slice that is advanced inside a loop (p = p[n:]) eventually becomes short:
+					// keeping "oversized" there would make the loop endless in the abstract and hide
+					// everything after it
+					if _, loopCarried := x.X.(*ssa.Phi); loopCarried {
+						l = latTop
+					}
 				}
 				if pt, ok := x.X.Type().Underlying().(*types.Pointer); ok {
 					if at, ok := pt.Elem().Underlying().(*types.Array); ok {
